@@ -107,6 +107,9 @@ def generate(seed, tier):
             if rf.random() < 0.5:
                 pre = [pre[0]] * len(pre)
         op['entropy'] = {'seed': ro.randrange(2 ** 32), 'prefix': pre}
+        if rf.random() < 0.1:
+            from ..history import noise_op
+            ops.append(dict(noise_op(rf), noise=True))
         ops.append(op)
     world = {'names': names}
     if rc.random() < 0.35:
@@ -122,8 +125,13 @@ def execute(case, ctx):
     from ..seams import make_cache
     parser = boot.fresh_parser(make_cache(case['world'].get('cache')))
     seen_src = set()
+    noise = {}
     for step, op in enumerate(case['ops']):
         ctx.step = step
+        if op.get('noise'):
+            from ..history import do_noise
+            do_noise(parser, op, noise, ctx)
+            continue
         ctx.op_kind(op['kind'])
         n = op['n']
         names['R'] = list(range(n))
@@ -167,6 +175,8 @@ def execute(case, ctx):
                         'host_dec_dot00': lambda x: Decimal(str(x) + '.00')}[op['form']]
                 names['lo'], names['hi'] = conv(a), conv(b)
                 src = 'map(R, v => rand(lo, hi))'
+                if (a + b + n) % 4 == 0:
+                    src = 'lo2 = lo\nhi2 = hi\nmap(R, v => rand(lo2, hi2))'       # a program of several lines
                 if op.get('failed_lambda'):
                     p_ = op['failed_lambda']
 
@@ -289,6 +299,8 @@ def execute(case, ctx):
 
 def simplify(case):
     for i, op in enumerate(case['ops']):
+        if op.get('noise'):
+            continue
         if op['entropy']['prefix']:
             o2 = dict(op, entropy=dict(op['entropy'], prefix=op['entropy']['prefix'][:-1]))
             yield dict(case, ops=case['ops'][:i] + [o2] + case['ops'][i + 1:])
